@@ -330,10 +330,19 @@ func (h *hist) noteCarry(before *big.Int, who string) {
 func (h *hist) opSeal(on hpke.Sealer, logIt bool) (ct []byte, ok bool) {
 	pt, aad := h.payload()
 	var err error
-	if pn := lib.Try("hpke.Sealer.Seal", pt, func() { ct, err = on.Seal(pt, aad) }); pn != nil {
+	// plaintext and associated data are handed over as adjacent sub-slices of
+	// one buffer (the plaintext's capacity reaches over the associated data and
+	// a canary): sealing must leave that buffer alone
+	fr := newFrame(pt, aad)
+	if pn := lib.Try("hpke.Sealer.Seal", pt, func() { ct, err = on.Seal(fr.part(0), fr.part(1)) }); pn != nil {
 		h.viol("C08:panic:seal", "panic", pn.Value, "frame", pn.TopFrame())
 		return nil, false
 	}
+	if !fr.intact() {
+		h.viol("C08:argument-memory-written:seal", "before", fr.orig, "after", fr.buf)
+		return nil, false
+	}
+	h.count("seal-adjacent-arguments")
 	if !logIt {
 		return ct, err == nil
 	}
@@ -375,9 +384,25 @@ func (h *hist) opSeal(on hpke.Sealer, logIt bool) (ct []byte, ok bool) {
 
 // realOpen runs Open on the real opener and logs it.
 func (h *hist) realOpen(ct, aad []byte, ctIdx int) (pt []byte, err error, ok bool) {
-	if pn := lib.Try("hpke.Opener.Open", ct, func() { pt, err = h.opener.Open(ct, aad) }); pn != nil {
+	fr := newFrame(ct, aad)
+	if pn := lib.Try("hpke.Opener.Open", ct, func() { pt, err = h.opener.Open(fr.part(0), fr.part(1)) }); pn != nil {
 		h.viol("C08:panic:open", "panic", pn.Value, "frame", pn.TopFrame(), "ct", ct)
 		return nil, nil, false
+	}
+	if !fr.intact() {
+		h.viol("C08:argument-memory-written:open", "before", fr.orig, "after", fr.buf, "opened", err == nil)
+		return nil, nil, false
+	}
+	if pt != nil {
+		// the returned plaintext is the caller's: it must not live in the frame
+		keep := lib.Clone(pt)
+		for i := range fr.buf {
+			fr.buf[i] ^= 0xFF
+		}
+		if !lib.Eq(pt, keep) {
+			h.viol("C08:result-aliases-argument:open")
+			return nil, nil, false
+		}
 	}
 	h.events = append(h.events, event{ctx: h.id, kind: evOpen, ok: err == nil, overflow: errors.Is(err, hpke.ErrAEADSeqOverflows), dataLen: len(pt), ctIdx: ctIdx})
 	return pt, err, true
@@ -768,3 +793,32 @@ func TestVerifHistories(t *testing.T) {
 		})
 	}
 }
+
+// frame lays byte strings out back to back in one exactly-sized buffer
+// followed by a canary; part(i) is the i-th string with its capacity reaching
+// to the end of the buffer.
+type frame struct {
+	buf, orig []byte
+	offs      [][2]int
+}
+
+func newFrame(parts ...[]byte) *frame {
+	f := &frame{}
+	n := 16
+	for _, p := range parts {
+		n += len(p)
+	}
+	f.buf = make([]byte, 0, n)
+	for _, p := range parts {
+		f.offs = append(f.offs, [2]int{len(f.buf), len(f.buf) + len(p)})
+		f.buf = append(f.buf, p...)
+	}
+	for i := 0; i < 16; i++ {
+		f.buf = append(f.buf, 0xA5^byte(i))
+	}
+	f.orig = lib.Clone(f.buf)
+	return f
+}
+
+func (f *frame) part(i int) []byte { return f.buf[f.offs[i][0]:f.offs[i][1]] }
+func (f *frame) intact() bool      { return lib.Eq(f.buf, f.orig) }
